@@ -387,7 +387,127 @@ theorem C10_exp_raw_view_write (c : ECfg) (cap : Nat) (ops : List EOp) (i : Nat)
     have this' : ¬ i < (List.foldl estep (einit c cap) ops).view := this
     simp [erun, List.foldl_append, estep, rawWrite, this']
 
-/-! ## radius queries -/
+/-! ### references to `agent_positions` kept by the user -/
+
+/-- Every history: the array `_agent_positions` is never shrunk, and it is replaced (by a strictly larger one) only by
+    `_add_agent`, only when it is full.  So the number of rows names the array: a reference to `agent_positions` taken
+    after `pre` still is a view of the space's array after `pre ++ post` iff the capacity is what it was — and then it was
+    the same at every moment in between. -/
+theorem C10_exp_capacity_names_the_array (c : ECfg) (cap : Nat) (pre post : List EOp) :
+    (erun c cap pre).cap ≤ (erun c cap (pre ++ post)).cap ∧
+    (∀ op, (erun c cap (pre ++ [op])).cap = (erun c cap pre).cap ∨
+      ((erun c cap pre).cap < (erun c cap (pre ++ [op])).cap ∧ (∃ a, op = .new a) ∧ (erun c cap pre).n = (erun c cap pre).cap)) ∧
+    ((erun c cap (pre ++ post)).cap = (erun c cap pre).cap →
+      ∀ k, (erun c cap (pre ++ post.take k)).cap = (erun c cap pre).cap) := by
+  have hmono : ∀ (a b : List EOp), (erun c cap a).cap ≤ (erun c cap (a ++ b)).cap := by
+    intro a b; simp only [erun, List.foldl_append]; exact efold_cap_mono b _
+  refine ⟨hmono pre post, fun op => ?_, fun he k => ?_⟩
+  · simp only [erun, List.foldl_append, List.foldl_cons, List.foldl_nil]
+    rcases estep_cap (List.foldl estep (einit c cap) pre) op with h | ⟨h1, h2, h3⟩
+    · exact Or.inl h
+    · have := (erun_refines c cap pre).inv.cap
+      exact Or.inr ⟨h1, h2, by simp only [erun] at this; omega⟩
+  · have h1 := hmono pre (post.take k)
+    have h2 := hmono (pre ++ post.take k) (post.drop k)
+    rw [List.append_assoc, List.take_append_drop] at h2
+    omega
+
+/-- A write `v[i] = p` through a reference `v = space.agent_positions` the user took after `pre` and still holds after
+    `pre ++ post`, for every pair of histories: beyond the length `v` had it is an `IndexError`; if the array has been
+    re-allocated since, the write is lost — the space is exactly as it was; if not and row `i` is in use, it is a write
+    through the current view (`C10_exp_raw_view_write`: it moves the agent that has row `i` *now*, which after removals
+    need not be the agent `v[i]` showed when `v` was taken); if the row is no longer in use (agents were removed)
+    nothing observable changes: membership, index maps and every agent's position are as before. -/
+theorem C10_exp_kept_view_write (c : ECfg) (cap : Nat) (pre post : List EOp) (i : Nat) (p : Pos) :
+    let v := holdView (erun c cap pre)
+    let s := erun c cap (pre ++ post)
+    v.len = (erun c cap pre).active.length ∧
+    (v.len ≤ i → heldWrite s v i p = .error .index) ∧
+    (i < v.len → s.cap ≠ (erun c cap pre).cap → heldWrite s v i p = .ok s) ∧
+    (i < v.len → s.cap = (erun c cap pre).cap → i < s.active.length →
+      heldWrite s v i p = rawWrite s i p ∧ heldWrite s v i p = .ok (erun c cap (pre ++ post ++ [.raw i p]))) ∧
+    (i < v.len → s.cap = (erun c cap pre).cap → s.active.length ≤ i →
+      ∃ s', heldWrite s v i p = .ok s' ∧ s'.active = s.active ∧ s'.a2i = s.a2i ∧ s'.n = s.n ∧ s'.cap = s.cap ∧
+        s'.gone = s.gone ∧ rows s' = rows s ∧ ∀ a, agentGet s' a = agentGet s a) := by
+  dsimp only
+  have h0 := (erun_refines c cap pre).inv
+  have h := (erun_refines c cap (pre ++ post)).inv
+  have hlen : (holdView (erun c cap pre)).len = (erun c cap pre).active.length := by
+    simp only [holdView]; rw [h0.view, h0.len]
+  have hcapv : (holdView (erun c cap pre)).cap = (erun c cap pre).cap := rfl
+  refine ⟨hlen, fun hi => ?_, fun hi hc => ?_, fun hi hc hu => ?_, fun hi hc hu => ?_⟩
+  · simp [heldWrite, Nat.not_lt.mpr hi]
+  · simp [heldWrite, hi, hcapv, Ne.symm hc]
+  · have hlt : i < (erun c cap (pre ++ post)).view := by rw [h.view, h.len]; exact hu
+    have e : heldWrite (erun c cap (pre ++ post)) (holdView (erun c cap pre)) i p = rawWrite (erun c cap (pre ++ post)) i p := by
+      simp [heldWrite, rawWrite, hi, hcapv, hc, hlt]
+    refine ⟨e, ?_⟩
+    rw [e]
+    obtain ⟨a, ha⟩ : ∃ a, (erun c cap (pre ++ post)).active[i]? = some a := ⟨_, List.getElem?_eq_getElem hu⟩
+    obtain ⟨s', h1, _, _, _, _, _, _, _, h8, _⟩ := (C10_exp_raw_view_write c cap (pre ++ post) i p).1 a ha
+    rw [h1, h8]
+  · refine ⟨{ erun c cap (pre ++ post) with buf := upd (erun c cap (pre ++ post)).buf i p },
+      by simp [heldWrite, hi, hcapv, hc], rfl, rfl, rfl, rfl, rfl, ?_, fun a => ?_⟩
+    · simp only [rows, ESpace.view]
+      apply List.map_congr_left
+      intro j hj
+      have : j < (erun c cap (pre ++ post)).n := by
+        have := List.mem_range.mp hj; omega
+      have hji : j ≠ i := by rw [h.len] at this; omega
+      simp [upd, hji]
+    · simp only [agentGet, getPos, ESpace.view]
+      cases ha : (erun c cap (pre ++ post)).a2i a with
+      | none => rfl
+      | some j =>
+        have hj := h.lt ha
+        have hji : j ≠ i := by rw [h.len] at hj; omega
+        simp only [upd, hji, if_false]
+        first | rfl | (split <;> first | rfl | (split <;> rfl))
+
+/-- What a kept reference shows.  While the array has not been re-allocated, row `j` of `v` is the position of the agent
+    that is `j`-th in `space.agents` *now* (rows beyond the current number of agents are stale copies); once the array has been
+    re-allocated, `v` shows for ever what the array held at that moment — nothing that happens in the space reaches it. -/
+theorem C10_exp_kept_view_read (c : ECfg) (cap : Nat) (pre post : List EOp) (v : Held) :
+    let h := hrun c cap (pre ++ post)
+    h.sp = erun c cap (pre ++ post) ∧
+    (v.cap = h.sp.cap → ∀ j a, j < v.len → h.sp.active[j]? = some a →
+      ∃ q, (h.read v)[j]? = some q ∧ agentGet h.sp a = .ok q) ∧
+    (v.cap = (erun c cap pre).cap → ∀ op rest, post = op :: rest → (erun c cap (pre ++ [op])).cap ≠ (erun c cap pre).cap →
+      h.read v = (hrun c cap pre).read v) := by
+  dsimp only
+  have hsp : ∀ ops, (hrun c cap ops).sp = erun c cap ops := fun ops => by
+    simp only [hrun, erun]; rw [hfold_sp]; rfl
+  refine ⟨hsp _, fun hc j a hj ha => ?_, fun hc op rest hpost hgrow => ?_⟩
+  · rw [hsp] at ha hc ⊢
+    have hi := (erun_refines c cap (pre ++ post)).inv
+    have hidx := (hi.idx a j).mpr ha
+    refine ⟨(erun c cap (pre ++ post)).buf j, ?_, ?_⟩
+    · simp [HSpace.read, hsp, hc, hj]
+    · rw [agentGet_of_mem hi (List.mem_of_getElem? ha), getPos_of_idx hi hidx]
+  · subst hpost
+    have hsplit : hrun c cap (pre ++ op :: rest) = rest.foldl hstep (hstep (hrun c cap pre) op) := by
+      simp only [hrun, List.foldl_append, List.foldl_cons]
+    have hstepcap : (hstep (hrun c cap pre) op).sp.cap = (erun c cap (pre ++ [op])).cap := by
+      simp only [hstep, HSpace.advance, hsp, erun, List.foldl_append, List.foldl_cons, List.foldl_nil]
+    have hlt : (erun c cap pre).cap < (erun c cap (pre ++ [op])).cap := by
+      rcases (C10_exp_capacity_names_the_array c cap pre []).2.1 op with h | h
+      · exact absurd h hgrow
+      · exact h.1
+    have hfin : v.cap < (rest.foldl hstep (hstep (hrun c cap pre) op)).sp.cap := by
+      rw [hfold_sp]
+      have := efold_cap_mono rest (hstep (hrun c cap pre) op).sp
+      omega
+    have horph : (rest.foldl hstep (hstep (hrun c cap pre) op)).orph v.cap = (erun c cap pre).buf := by
+      rw [hfold_orph_frozen rest _ v.cap (by omega)]
+      simp only [hstep, HSpace.advance, hsp]
+      have hne : ¬ (estep (erun c cap pre) op).cap = (erun c cap pre).cap := by
+        have : estep (erun c cap pre) op = erun c cap (pre ++ [op]) := by
+          simp only [erun, List.foldl_append, List.foldl_cons, List.foldl_nil]
+        rw [this]; exact hgrow
+      simp [hne, upd, hc]
+    rw [hsplit]
+    simp only [HSpace.read]
+    rw [if_neg (by omega), horph, hsp, if_pos hc]
 
 /-- Legacy, every history: `get_neighbors(p, r, include_center)` returns exactly the agents in the space
     whose squared distance to `p` is at most `r²` (those at distance 0 only if `include_center`), computed
@@ -910,6 +1030,24 @@ example : agentsInRadius (erun exE 0 exERaw) [990, 0, 0] 10 = [(3, 81)] := by de
 /-- the hypothesis of `C10_exp_positions_inside` holds of a history with an in-bounds write through the view -/
 example : ∀ i p, EOp.raw i p ∈ exEOps ++ [.raw 1 [64, 0, 0]] → inBounds exE.dims p = true := by
   intro i p h; simp [exEOps] at h; obtain ⟨_, rfl⟩ := h; decide
+/-! references to `agent_positions` kept by the user: a 1-D space of capacity 1; the reference is taken with one agent in the
+space (`⟨1, 1⟩`: one row, length 1), the second agent re-allocates the array -/
+def exK : ECfg := { dims := [(0, 64)], torus := false }
+def exKpre : List EOp := [.new 1, .set 1 [5]]
+example : holdView (erun exK 1 exKpre) = ⟨1, 1⟩ := by decide
+example : (hrun exK 1 (exKpre ++ [.set 1 [7]])).read ⟨1, 1⟩ = [[7]] := by rfl
+example : (erun exK 1 (exKpre ++ [.new 2])).cap = 2 := by decide
+example : (hrun exK 1 (exKpre ++ [.new 2, .set 2 [9], .set 1 [8]])).read ⟨1, 1⟩ = [[5]] := by rfl
+example : (heldWrite (erun exK 1 (exKpre ++ [.new 2])) ⟨1, 1⟩ 0 [3]).toOption.map (fun s => agentGet s 1) = some (.ok [5]) := by
+  rfl
+example : (heldWrite (erun exK 1 exKpre) ⟨1, 1⟩ 0 [3]).toOption.map (fun s => agentGet s 1) = some (.ok [3]) := by rfl
+/-- capacity 5, reference taken with agents 1 and 2; after `1.remove()` row 0 is agent 2's: `v[0] = 9` moves agent 2, and
+    `v[1] = 9` (a row no agent has any more) moves nobody -/
+def exKrm : List EOp := [.new 1, .set 1 [5], .new 2, .set 2 [6], .remove 1]
+example : holdView (erun exK 5 (exKrm.take 4)) = ⟨5, 2⟩ := by decide
+example : (heldWrite (erun exK 5 exKrm) ⟨5, 2⟩ 0 [9]).toOption.map (fun s => agentGet s 2) = some (.ok [9]) := by rfl
+example : (heldWrite (erun exK 5 exKrm) ⟨5, 2⟩ 1 [9]).toOption.map (fun s => agentGet s 2) = some (.ok [6]) := by rfl
+example : (hrun exK 5 exKrm).read ⟨5, 2⟩ = [[6], [6]] := by rfl
 end Examples
 
 end Mesa.Cont
